@@ -172,7 +172,10 @@ impl Lock<'_> {
                     sa.raised.len() + sa.zeroes as usize > 1 || sb.raised.len() + sb.zeroes as usize > 1
                 })
                 .unwrap_or(false);
-            if several_failures && matches!((&ra, &rb), (OpResult::Err(_), OpResult::Err(_))) && ra != rb {
+            // a failing Display impl: whether the fragments before the failure were already written
+            // (and ran into an inner fault) or the text is rendered first is a formatting strategy
+            let failing_display = applied_kind(&op, buf) == Applied::FmtFail;
+            if (several_failures || failing_display) && matches!((&ra, &rb), (OpResult::Err(_), OpResult::Err(_))) && ra != rb {
                 self.stats.probe("several_inner_failures_in_one_call");
                 self.failed_all = true;
                 return Ok(());
